@@ -13,6 +13,7 @@
 -/
 import YalafiVerif.Proofs.Inv.Main
 import YalafiVerif.Proofs.Lines
+import YalafiVerif.Proofs.PlainComment
 namespace Yalafi
 
 /-- tokens returned by `parser_work` (the main flow) are of output classes, whatever the text -/
@@ -25,5 +26,31 @@ theorem C03_kinds (T : PTables) (hw : T.WFInv) (nroot fuel : Nat) (latex : Str) 
 theorem C03_removeLines_kinds (ts out : List Tok) (hr : removeLines ts = some out) :
     ∀ t ∈ out, t.txt ≠ [] ∨ isLang t = true :=
   removeLines_kinds ts out hr
+
+/-- **the text of a comment never leaks**, end to end on the filter model: for documents made of
+    inert text and `%` comments (trailing comments, comment-only lines, several in a row, a comment
+    at the very end of the source; a comment must not start with the skip marker — `segsOk`), the
+    output is the source with every comment span deleted — from `%` to what the scanner's comment
+    token takes: the line break and the indentation of the next line too, unless a blank line
+    follows (then the paragraph break survives) — and every remaining character keeps its own
+    source position; no unknowns, no diagnostics.  `Comment.strip_avoids_comments`: no output
+    position lies inside a comment. -/
+theorem C03_comments_dropped (T : PTables) (o : Options) (fs : FS) (thresh : Nat)
+    (segs : List Comment.Seg) (fuel : Nat) (st1 : PState)
+    (hdefs : o.defs = []) (hextr : o.extr = []) (hrepl : o.hasRepl = false)
+    (hunkn : o.unkn = false)
+    (hinit : initParser T fuel o (initialState T o false fs) = .ok ((), st1))
+    (hok : Comment.segsOk T st1 segs = true) (hf : (Comment.render segs).length + 2 ≤ fuel) :
+    ∃ r, tex2txt T fuel (Comment.render segs) o false thresh fs = .ok r ∧
+      r.txt = (Comment.stripComments (Comment.render segs)).map (·.1) ∧
+      r.pos = (Comment.stripComments (Comment.render segs)).map (·.2 + 1) ∧
+      r.unknowns = [] ∧ r.diags = st1.diags := by
+  obtain ⟨r, h1, h2, h3, h4, h5, _⟩ :=
+    Comment.tex2txt_comments T o fs thresh segs fuel st1 hdefs hextr hrepl hunkn hinit hok hf
+  exact ⟨r, h1, h2, h3, h4, h5⟩
+
+theorem C03_comment_positions_outside (src : Str) (cp : Char × Nat) (q : Nat × Nat)
+    (h : cp ∈ Comment.stripComments src) (hq : q ∈ Comment.comments src) : cp.2 < q.1 ∨ q.1 + q.2 ≤ cp.2 :=
+  Comment.strip_avoids_comments src cp q h hq
 
 end Yalafi
